@@ -15,6 +15,7 @@ import WD.Proofs.Pipeline.ReplayFlat
 import WD.Proofs.Pipeline.Burst
 import WD.Proofs.Pipeline.BurstFiles
 import WD.Proofs.Pipeline.BurstFlat
+import WD.Proofs.Pipeline.BurstGrow
 import WD.Proofs.Pipeline.Theorems
 namespace WD.C01
 open WD WD.Pipe
@@ -159,5 +160,36 @@ example :
        ⟨.FileCreatedEvent, "W/d/a", "", false⟩, ⟨.DirModifiedEvent, "W/d", "", false⟩, ⟨.FileOpenedEvent, "W/d/a", "", false⟩,
        ⟨.FileClosedEvent, "W/d/a", "", false⟩, ⟨.DirModifiedEvent, "W/d", "", false⟩] := by
   decide +kernel
+
+
+/-- **back-to-back regime, growth**: after any drained history, a burst of `mkdir`s and file creations at any depth
+    (`mkdir -p` + populate: directories created inside directories of the same burst, filled before the reader wakes
+    up), read as ONE batch after its last operation: replaying the delivered events on the tree as it was before the
+    burst gives the tree as it is after it.  (Here burst and drained run do NOT deliver the same list: what was created
+    inside a directory before its watch existed is announced by the walk of `_recursive_simulate`, not by the kernel.) -/
+theorem replay_growth_burst_partial (fs0 : FS) (hwf : fs0.WF) (full : Bool) (pre burst : List Op)
+    (hv : allValid (Sys.start fs0 true full) pre = true) (hroot : Op.rmdir ["W"] ∉ pre)
+    (hb : allGrow ((Sys.start fs0 true full).run pre).1.fs burst = true) :
+    sameTree (replay (treeW ((Sys.start fs0 true full).run pre).1.fs) (((Sys.start fs0 true full).run pre).1.burst burst).2)
+             (treeW (((Sys.start fs0 true full).run pre).1.burst burst).1.fs) := by
+  obtain ⟨inv, hs, hc⟩ := after_history fs0 hwf full pre hv hroot
+  obtain ⟨h1, _, _, _, h5, _⟩ := burst_grow _ burst inv hs hc hb
+  rw [h1]; exact h5
+
+/-- non-vacuity: a three-level `mkdir -p` with files, all issued before the reader wakes up -/
+example :
+    let s := ((Sys.start FS.init true false).run [.mkdir ["W", "a"]]).1
+    let ops := [Op.mkdir ["W", "a", "b"], .mkdir ["W", "a", "b", "c"], .create ["W", "a", "b", "c", "f"], .create ["W", "a", "g"],
+                .mkdir ["W", "x"], .mkdir ["W", "x", "y"], .create ["W", "x", "y", "z"]]
+    allGrowB s ops = true ∧
+    (s.burst ops).2.map PEv.toEvent =
+      [⟨.DirCreatedEvent, "W/a/b", "", false⟩, ⟨.DirModifiedEvent, "W/a", "", false⟩,
+       ⟨.DirCreatedEvent, "W/a/b/c", "", false⟩, ⟨.DirModifiedEvent, "W/a/b", "", false⟩,
+       ⟨.FileCreatedEvent, "W/a/b/c/f", "", false⟩, ⟨.DirModifiedEvent, "W/a/b/c", "", false⟩,
+       ⟨.FileCreatedEvent, "W/a/g", "", false⟩, ⟨.DirModifiedEvent, "W/a", "", false⟩,
+       ⟨.FileOpenedEvent, "W/a/g", "", false⟩, ⟨.FileClosedEvent, "W/a/g", "", false⟩, ⟨.DirModifiedEvent, "W/a", "", false⟩,
+       ⟨.DirCreatedEvent, "W/x", "", false⟩, ⟨.DirModifiedEvent, "W", "", false⟩,
+       ⟨.DirCreatedEvent, "W/x/y", "", false⟩, ⟨.DirModifiedEvent, "W/x", "", false⟩,
+       ⟨.FileCreatedEvent, "W/x/y/z", "", false⟩, ⟨.DirModifiedEvent, "W/x/y", "", false⟩] := by decide +kernel
 
 end WD.C01
